@@ -1465,3 +1465,7 @@ benign('benign-c06-payload-len-test', 'C06', CONN, """                let messag
                     }
                 };""")
 canary('c10-replay-extra-condition', 'C10', 'crates/erltf/src/encoder.rs', "    if let Some(local_bytes) = &pid.local_ext_bytes {", "    if let Some(local_bytes) = &pid.local_ext_bytes\n        && local_bytes.len() > 12\n    {", 'plain-form-with-raw-bytes')
+_CIF_OLD = "    let i_as_f = i as f64;\n    i_as_f.partial_cmp(&f).unwrap_or(Ordering::Equal)\n}"
+canary('c11-float-saturating-narrow', 'C11', 'crates/erltf/src/term.rs', _CIF_OLD, "    if f.abs() >= 9_007_199_254_740_992.0 {\n        return i.cmp(&(f as i64));\n    }\n" + _CIF_OLD, 'float-as-int')
+benign('benign-c11-float-bounded-narrow', 'C11', 'crates/erltf/src/term.rs', _CIF_OLD, "    if f.abs() < 1.0 && i == 0 {\n        let _t = f as i64;\n    }\n" + _CIF_OLD,
+       more=[('crates/erltf/src/borrowed.rs', _CIF_OLD, "    if f.abs() < 1.0 && i == 0 {\n        let _t = f as i64;\n    }\n" + _CIF_OLD)])
